@@ -86,9 +86,9 @@ func (evt *startEvent) run(ctx context.Context, sender tracing.ISenderHandle) {
 			case nextActionMessage:
 				if !evt.activated.Load() {
 					evt.activated.Store(true)
-					m.response <- flowAction{sequenceFlows: allSequenceFlows(&evt.outgoing)}
+					deliverAction(ctx, m.response, flowAction{sequenceFlows: allSequenceFlows(&evt.outgoing)})
 				} else {
-					m.response <- completeAction{}
+					deliverAction(ctx, m.response, completeAction{})
 				}
 			case startMessage:
 				// an explicit trigger always lets a new token leave the
